@@ -57,25 +57,56 @@ def dictEntries (id form : Str) : V → List Entry
 
 def msgKeys : List Str := [s "jr:constraintMsg", s "jr:requiredMsg", s "jr:noAppErrorString"]
 
+/-- does `}` occur before any newline? -/
+def closesBrace : Str → Bool
+  | [] => false
+  | c :: cs => if c = '}' then true else if c = '\n' then false else closesBrace cs
+
+/-- `re.search(BRACKETED_TAG_REGEX, s)`, `\$\{(last-saved#)?(.*?)\}` -/
+def hasBracketedTag : Str → Bool
+  | [] => false
+  | c :: cs => (startsWith (c :: cs) (s "${") && closesBrace ((c :: cs).drop 2)) || hasBracketedTag cs
+
+/-- the itext entries of one bind message (survey_element.py:372-404): a dict is filed per language; a plain
+message goes to itext — under the default language — only when it contains a `${reference}`; `jr:noAppErrorString`
+only as a dict -/
+def msgEntries (dl : Str) (id : Str) (k : Str) : V → List Entry
+  | .dict m => dictEntries id (s "long") (.dict m)
+  | .str t => if k ≠ s "jr:noAppErrorString" && !t.isEmpty && hasBracketedTag t then [⟨dl, id, s "long", .str t⟩] else []
+  | .none => []
+
+/-- the bind-message entries of `get_translations` (survey_element.py:372-404) -/
+def msgsOf (dl : Str) (e : Elem) : List Entry :=
+  match e.bind with
+  | .dict b => if (V.dict b).falsy then [] else
+      msgKeys.flatMap fun k => msgEntries dl (e.path ++ s ":" ++ k) k (b.get k)
+  | _ => []
+
+def wrapDl (dl : Str) (v : V) : V := .dict (.cons dl v .nil)
+
+/-- the label as `get_translations` files it: a plain label next to media is wrapped under the default language -/
+def labelV (dl : Str) (e : Elem) : V :=
+  if needsItextRef e && !isDict e.label && !e.label.falsy then wrapDl dl e.label else e.label
+
+/-- guidance hints always use itext: a plain one is wrapped under the default language -/
+def guidanceV (dl : Str) (e : Elem) : V :=
+  match e.guidance with
+  | .str g => if g.isEmpty then e.guidance else wrapDl dl e.guidance
+  | g => g
+
+/-- a plain hint next to a guidance hint is wrapped under the default language -/
+def hintV (dl : Str) (e : Elem) : V :=
+  match e.hint, e.guidance with
+  | .str h, .str g => if !h.isEmpty && !g.isEmpty then wrapDl dl e.hint else e.hint
+  | .str h, .dict g => if !h.isEmpty && !(Kvs.items g).isEmpty then wrapDl dl e.hint else e.hint
+  | h, _ => h
+
 /-- `get_translations` (survey_element.py:370-459) followed by the id/form choice of `_setup_translations`
 (survey.py:846-866): guidance hints go under `<path>:hint` with form `guidance`. -/
 def getTranslations (dl : Str) (e : Elem) : List Entry :=
-  let msgs := match e.bind with
-    | .dict b => if (V.dict b).falsy then [] else
-        msgKeys.flatMap fun k => dictEntries (e.path ++ s ":" ++ k) (s "long") (b.get k)
-    | _ => []
-  let wrap (v : V) : V := .dict (.cons dl v .nil)
-  let label := if needsItextRef e && !isDict e.label && !e.label.falsy then wrap e.label else e.label
-  let guidance := match e.guidance with
-    | .str g => if g.isEmpty then e.guidance else wrap e.guidance
-    | g => g
-  let hint := match e.hint, e.guidance with
-    | .str h, .str g => if !h.isEmpty && !g.isEmpty then wrap e.hint else e.hint
-    | .str h, .dict g => if !h.isEmpty && !(Kvs.items g).isEmpty then wrap e.hint else e.hint
-    | h, _ => h
-  msgs ++ dictEntries (e.path ++ s ":label") (s "long") label
-       ++ dictEntries (e.path ++ s ":hint") (s "long") hint
-       ++ dictEntries (e.path ++ s ":hint") (s "guidance") guidance
+  msgsOf dl e ++ dictEntries (e.path ++ s ":label") (s "long") (labelV dl e)
+       ++ dictEntries (e.path ++ s ":hint") (s "long") (hintV dl e)
+       ++ dictEntries (e.path ++ s ":hint") (s "guidance") (guidanceV dl e)
 
 /-- `_setup_media._set_up_media_translations` (survey.py:913-955); unsupported media types raise -/
 def mediaEntries (dl : Str) (e : Elem) : List Entry :=
@@ -172,7 +203,7 @@ def msgSrc (e : Elem) (k : Str) : Src :=
   match e.bind with
   | .dict b => match b.get k with
     | .dict _ => .ref (e.path ++ s ":" ++ k)
-    | .str t => .inline t
+    | .str t => if hasBracketedTag t then .ref (e.path ++ s ":" ++ k) else .inline t
     | .none => .absent
   | _ => .absent
 
@@ -221,9 +252,8 @@ def elemTexts (T : List Entry) (padIds : List Str) (view : List Str) (e : Elem) 
 
 /-- the texts of one choice as shown through one select: an ordinary select reads the secondary instance
 (`itextId` or in-line `label`, survey.py:372-390); a `search()` select has in-line items whose label is the itext
-ref, or — only when the *question* has a label (`elif self.label and option.label`, question.py:455-466) —
-the plain text -/
-def choiceTexts (T : List Entry) (padIds : List Str) (view : List Str) (itext : Bool) (search : Bool) (qLabel : V) (c : Choice) :
+ref, or the plain text when the option has one (`elif option.label`, question.py:455-466, after repair 51586cd) -/
+def choiceTexts (T : List Entry) (padIds : List Str) (view : List Str) (itext : Bool) (search : Bool) (_qLabel : V) (c : Choice) :
     List (Str × Str × Str) :=
   if itext then
     ((s "label", s "long") :: mediaKinds.map fun m => (m, m)).flatMap fun (kind, form) =>
@@ -232,7 +262,7 @@ def choiceTexts (T : List Entry) (padIds : List Str) (view : List Str) (itext : 
   else
     match c.label with
     | .str t =>
-      if search && (qLabel.falsy || t.isEmpty) then [] else view.map fun lang => (s "label", lang, t)
+      if search && t.isEmpty then [] else view.map fun lang => (s "label", lang, t)
     | _ => []
 
 structure Form where
